@@ -70,3 +70,36 @@ def select(term, discr_pred, key):
                 return dflt
         return x
     return map_term(_t(term), f)
+
+
+def specialize(term, scrutinee, key, variant_term=None):
+    """restrict `term` to the case discr(scrutinee) == key: Γ's on that discriminant are replaced by their arm, the
+    scrutinee itself by `variant_term` (so comparisons with constant variants fold)"""
+    from .terms import map_term, mk, num
+    d = ('discr', scrutinee)
+    nk = num(int(key))
+
+    def f(x):
+        if x == d or (variant_term is not None and x == ('discr', variant_term)):
+            return nk
+        if x[0] == 'Gamma' and x[1] == nk:
+            dflt = None
+            for k, v in x[2]:
+                ks = k.split('|')
+                if str(key) in ks:
+                    return v
+                if 'otherwise' in ks:
+                    dflt = v
+            return dflt if dflt is not None else x
+        if x[0] == 'gamma' and x[1] == nk:
+            return x[2] if int(key) != 0 else x[3]
+        if variant_term is not None and x == scrutinee:
+            return variant_term
+        return x
+    t = _t(term)
+    for _ in range(4):
+        t2 = map_term(t, f)
+        if t2 == t:
+            break
+        t = t2
+    return t
